@@ -219,6 +219,17 @@ def run_check(pid, tier, seed, mod):
                     for th in thms or ['build']:
                         ctx.oblige('theorem:' + th, False, 'coq build failed at %s' % where)
                     ctx.build_error = err
+            if tier == 'thorough' and targets and ok:
+                mods = ['HidV.' + t[:-3].replace('/', '.') for t in targets]
+                try:
+                    pc = subprocess.run(['timeout', '3000', 'coqchk', '-Q', '.', 'HidV', '-o'] + mods, cwd=COQ, stdout=subprocess.PIPE, stderr=subprocess.STDOUT, timeout=3100)
+                    outc = pc.stdout.decode(errors='replace')
+                    m = re.search(r'\* Axioms:(.*?)\n\s*\n', outc, re.S)
+                    ax = m.group(1).strip() if m else '?'
+                    ctx.oblige('coqchk -o on %s: modules re-checked by the independent checker, axioms: %s' % (' '.join(mods), ax), pc.returncode == 0 and ax == '<none>', outc[-400:] if pc.returncode else '')
+                    ctx.assumptions.append('coqchk -o: axioms %s; type-in-type/unsafe fixpoints/assumed positivity: none reported' % ax)
+                except subprocess.TimeoutExpired:
+                    ctx.notes.append('coqchk timed out (not counted)')
             bad = grep_forbidden()
             ctx.oblige('no Admitted/Axiom/Parameter in coq/', not bad, '; '.join(bad[:5]))
             # property-specific correspondences + search (still under the lock: the component
